@@ -1620,7 +1620,10 @@ def c10(ctx):
         S = pattern(60000, 17)
         P1 = bytes((i * 29 + 7) % 253 for i in range(4096))
         chunkers = [("rollsum", ["--hash-chunking", "RollSum", "--rolling-window-size", "16B", "--min-chunk-size", "64B", "--avg-chunk-size", "256B", "--max-chunk-size", "1KiB"], 1024),
-                    ("buzhash", ["--hash-chunking", "BuzHash", "--rolling-window-size", "16B", "--min-chunk-size", "64B", "--avg-chunk-size", "256B", "--max-chunk-size", "1KiB"], 1024)]
+                    ("buzhash", ["--hash-chunking", "BuzHash", "--rolling-window-size", "16B", "--min-chunk-size", "64B", "--avg-chunk-size", "256B", "--max-chunk-size", "1KiB"], 1024),
+                    # a minimum chunk size below the window size is a valid configuration too
+                    ("rollsum-min-below-window", ["--hash-chunking", "RollSum", "--rolling-window-size", "64B", "--min-chunk-size", "16B", "--avg-chunk-size", "128B", "--max-chunk-size", "1KiB"], 1024),
+                    ("buzhash-min-below-window", ["--hash-chunking", "BuzHash", "--rolling-window-size", "48B", "--min-chunk-size", "8B", "--avg-chunk-size", "64B", "--max-chunk-size", "512B"], 512)]
         # the second kind of shared data has long constant runs: there the MAXIMUM chunk size places the boundaries, and
         # it has to be the same maximum whenever the data is chunked (compress, seed scan, output scan)
         S_runs = pattern(5000, 23) + b"\0" * 20000 + pattern(5000, 29) + b"\xff" * 15000 + pattern(15000, 31)
@@ -1654,10 +1657,24 @@ def c10(ctx):
                     elif fb > bound:
                         viol.add("shared-data-behind-a-different-prefix-not-found", detail)
                     distinct.add((cname, p2len, how))
+                    if how == "seed-file" and p2len in (4097, 9001):
+                        # the old data found again must not depend on what was found before it: with a FIRST seed that
+                        # already holds all of the new data but its last 2 KiB, no more may be fetched than with the old data alone
+                        first = os.path.join(d, f"first-{p2len}.bin")
+                        with open(first, "wb") as f:
+                            f.write((P1 + S)[:-2048] + bytes((i * 17 + 3) % 239 for i in range(2048)))
+                        r3 = sh([bita, "clone", "--seed", first, "--seed", old, arc, os.path.join(d, f"out2-{p2len}.bin")])
+                        n += 1
+                        fb3 = fetched(r3)
+                        d3 = dict(detail, first_seed="the new data with its last 2 KiB replaced", bytes_fetched_with_both_seeds=fb3)
+                        if r3.returncode != 0 or fb3 is None:
+                            viol.add("valid-clone-failed", dict(d3, stderr=r3.stderr.decode()[-300:]))
+                        elif fb3 > fb:
+                            viol.add("shared-data-not-found-after-an-earlier-seed", d3)
     finally:
         shutil.rmtree(root, ignore_errors=True)
     cov = {"evaluations": n, "cli_resync_cases": n, "distinct_nontrivial": len(distinct), "exhaustive": True,
-           "rule": "real binary: new = P1+S (4 KiB + 60 kB) cloned with old = P2+S, |P2| in {4097, 5000, 9001, 20000}, given as seed file and as prior output, RollSum and BuzHash, S irregular text or text with constant runs of 15-20 kB (boundaries placed by the maximum chunk size): the bytes fetched from the archive stay below |P1| + 4 maximal chunks (every chunk of S after the resynchronisation point is found)"}
+           "rule": "real binary: new = P1+S (4 KiB + 60 kB) cloned with old = P2+S, |P2| in {4097, 5000, 9001, 20000}, given as seed file and as prior output, RollSum and BuzHash, S irregular text or text with constant runs of 15-20 kB (boundaries placed by the maximum chunk size): the bytes fetched from the archive stay below |P1| + 4 maximal chunks (every chunk of S after the resynchronisation point is found); configurations incl. a minimum chunk size below the window; and with a first seed that already holds the new data but its last 2 KiB no more is fetched than with the old data alone"}
     return result(ctx["pid"], "exploration", cov, viol, t0, ["A5; the command's own report line is the observation"])
 
 
